@@ -359,6 +359,7 @@ Close(micro, raw, P, Q) == Abs(micro * Q - raw * P) <= Q * (1 + Abs(micro) \div 
 
 IsInt(x) == x \in Int
 
+StationCounts(sts) == [i \in 1..Len(sts) |-> Len(sts[i].messages)]
 StationShape(sts) == [i \in 1..Len(sts) |-> [j \in 1..Len(sts[i].messages) |-> Len(sts[i].messages[j].slot_offset)]]
 
 \* violations of one field: a set of <<property, field name, what>>
@@ -379,6 +380,10 @@ FieldViol(d, obs, known) ==
                    THEN IF StationShape(obs) \in {StationShape(x) : x \in d.vals}
                         THEN {<<"C04", d.name, "value">>}
                         ELSE {<<"C14", d.name, "structure">>, <<"C04", d.name, "structure">>}
+                             \* same stations and requests, but a slot offset present / absent the wrong way round:
+                             \* the 'offset 0 = not available' rule of C11 is contradicted as well
+                             \cup (IF StationCounts(obs) \in {StationCounts(x) : x \in d.vals}
+                                   THEN {<<"C11", d.name, "slot offset presence">>} ELSE {})
               ELSE {<<d.prop, d.name, "value">>}
     ELSE IF d.kind = "f"
     THEN IF IsInt(obs) /\ Close(obs, d.raw, d.P, d.Q) THEN {} ELSE {<<"C10", d.name, "value">>}
